@@ -44,6 +44,16 @@ HOOKS = {"new_world": None, "apply_event": None, "enabled": None, "shadow_of": N
          "judge": None, "probe": None, "channel_symmetry": True}
 
 
+# explicit job ids handed out by the "add" event: j1, j2, ... unless a phase chooses other spellings (e.g. falsy ones)
+IDNAMES = None
+
+
+def jobname(n):
+    if IDNAMES and n <= len(IDNAMES):
+        return IDNAMES[n - 1]
+    return "j%d" % n
+
+
 # ----------------------------------------------------------------------------- executing histories
 def new_world():
     if HOOKS["new_world"]:
@@ -59,7 +69,7 @@ def apply_event(w, ev):
     k = ev[0]
     if k == "add":
         w.njobs += 1
-        jid = "j%d" % w.njobs
+        jid = jobname(w.njobs)
         w.jobspec[jid] = (ev[1], ev[2])
         w.send("c", "qadd", channel=ev[1], priority=ev[2], jobid=jid, timeout=ev[3], payload={"n": w.njobs})
     elif k == "readd":
@@ -103,7 +113,11 @@ def run_poll(w, events, choices):
     for ev in events:
         apply_event(w, ev)
     w.loop()
-    return w.chooser.taken[n0:]
+    taken = w.chooser.taken[n0:]
+    if not hasattr(w, "history"):
+        w.history = []
+    w.history.append((tuple(events), tuple(t[0] for t in taken)))
+    return taken
 
 
 def execute(history):
@@ -294,7 +308,7 @@ def base_shadow_apply(sh, ev):
     k = ev[0]
     if k == "add":
         sh["njobs"] += 1
-        jid = "j%d" % sh["njobs"]
+        jid = jobname(sh["njobs"])
         sh["jobs"] = sh["jobs"] + [jid]
         sh["undone"] = sh["undone"] + [jid]
     elif k in ("pull", "finish"):
@@ -544,11 +558,13 @@ class Explorer:
                 stack = [()]
                 while stack:
                     choices = stack.pop()
-                    w = execute(hist)
                     if payload.get("key") is not None and pi == 0 and choices == ():
+                        w = execute(hist)  # (a world of its own: judging may talk to the server)
                         k0 = state_key(judge(w, self.cfg)[0] if HOOKS["judge"] else abstract(w))
+                        w.close()
                         if k0 != payload["key"]:
                             return {"fatal": "replay of prefix diverged: %r" % (hist,)}
+                    w = execute(hist)
                     taken = run_poll(w, poll, choices)
                     for i in range(len(choices), len(taken)):
                         for alt in range(1, taken[i][1]):
@@ -602,6 +618,8 @@ def search(prop, cfg, tier, seed, families, post_restart_only=False, time_cap=No
            extra_cov=None, pre_violations=None, verdict=None, defer=False, label=""):
     """defer=True: do not print/write anything, return (cov, verdict) so that several phases share one verdict"""
     t0 = time.time()
+    global IDNAMES
+    IDNAMES = getattr(cfg, "idnames", None)  # (before the workers are forked)
     ex = Explorer(prop, cfg, families, post_restart_only)
     p = poolmod.WorkerPool(ex.handle, soft_timeout=30.0, hard_timeout=90.0, mem_gb=4)
     verdict = verdict or report.Verdict(prop, gate=gate)
@@ -658,7 +676,7 @@ def search(prop, cfg, tier, seed, families, post_restart_only=False, time_cap=No
                     for fam, sig, msg in tr["viol"]:
                         sig_counts[sig] += 1
                         if sig_counts[sig] <= 3 or len(hist2) < 3:
-                            verdict.add(sig, {"case": {"history": hist2}, "msg": msg, "idx": cost * 1000000 + len(json.dumps(hist2))}, count=1)
+                            verdict.add(sig, {"case": mkcase(hist2), "msg": msg, "idx": cost * 1000000 + len(json.dumps(hist2))}, count=1)
                         else:
                             verdict.add(sig, None, count=1)
                     if tr["key"] is None:
@@ -675,7 +693,7 @@ def search(prop, cfg, tier, seed, families, post_restart_only=False, time_cap=No
                             samples.append({"history": hist2, "cost": c2})
             for (ti, cidx, kind) in p.events:
                 verdict.add("hang" if kind == "hang" else "worker-crash",
-                            {"case": {"history": tasks[ti]["hist"] + [(tasks[ti]["polls"][cidx], ())]} if tasks[ti]["kind"] == "expand" else {},
+                            {"case": mkcase(tasks[ti]["hist"] + [(tasks[ti]["polls"][cidx], ())]) if tasks[ti]["kind"] == "expand" else {},
                              "msg": "worker %s while executing a transition" % kind, "idx": 0})
             del p.events[:]
             # black-box drain probe on every newly discovered distinct state
@@ -695,7 +713,7 @@ def search(prop, cfg, tier, seed, families, post_restart_only=False, time_cap=No
                         drain_outcomes.add(pr["got"])
                         for fam, sig, msg in pr["viol"]:
                             sig_counts[sig] += 1
-                            verdict.add(sig, {"case": {"history": hist, "probe": True}, "msg": msg,
+                            verdict.add(sig, {"case": mkcase(hist, probe=True), "msg": msg,
                                               "idx": len(json.dumps(hist))}, count=1)
             per_level[cost] = {"expanded": len(nodes), "new_states": len(newnodes), "transitions_total": ntrans,
                                "elapsed_s": round(time.time() - t0, 1)}
@@ -771,8 +789,18 @@ def search_phases(prop, phases, tier, seed, families, post_restart_only=False, r
     return rc
 
 
+def mkcase(hist, **kw):
+    c = {"history": hist}
+    if IDNAMES:
+        c["idnames"] = list(IDNAMES)
+    c.update(kw)
+    return c
+
+
 def replay_history(record, families, cfg, post_restart_only=False):
+    global IDNAMES
     case = record["case"]
+    IDNAMES = tuple(case["idnames"]) if case.get("idnames") else None
     hist = [(tuple(map(tuple_deep, ev)), tuple(ch)) for ev, ch in case["history"]]
     if case.get("probe"):
         viol, got = drain_probe(hist)
